@@ -53,6 +53,8 @@ impl FormMultipartData {
                 mut bytes_read: i128,
                 total_bytes: i128,
                 mut part_list: Vec<Part>) -> Result<Vec<Part>, String> {
+        // one loop iteration per part: a call per part needs a stack frame per part
+        loop {
         let mut buf = vec![];
         let mut part = Part { headers: vec![], body: vec![] };
 
@@ -222,7 +224,7 @@ impl FormMultipartData {
             return Ok(part_list)
         }
 
-        FormMultipartData::parse_form_part_recursively(cursor, boundary, bytes_read, total_bytes, part_list)
+        } // next part, with the same cursor, bytes_read and part_list
     }
 
     pub fn extract_boundary(content_type: &str) -> Result<String, String> {
